@@ -38,6 +38,68 @@ func ruleR4LoopCarried(c *Ctx) []Obligation {
 				byObj[obj] = fn
 			}
 		}
+		// setters: functions whose first statement that mentions a receiver field F is the top-level
+		// assignment `recv.F = <parameter>` (`enterModule(name)`, or a per-module helper that starts by
+		// recording the module): a call of them is an assignment of F from the argument
+		type setterT struct {
+			field *types.Var
+			idx   int
+		}
+		setters := map[*types.Func]setterT{}
+		for _, fn := range fns {
+			obj, _ := fn.info.Defs[fn.fd.Name].(*types.Func)
+			if obj == nil || fn.fd.Recv == nil || len(fn.fd.Recv.List) != 1 || len(fn.fd.Recv.List[0].Names) != 1 {
+				continue
+			}
+			recv := fn.info.Defs[fn.fd.Recv.List[0].Names[0]]
+			params := vmParamObjs(fn)
+			for _, st := range fn.fd.Body.List {
+				as, ok := st.(*ast.AssignStmt)
+				if ok && as.Tok == token.ASSIGN && len(as.Lhs) == 1 && len(as.Rhs) == 1 {
+					if sel, isSel := ast.Unparen(as.Lhs[0]).(*ast.SelectorExpr); isSel && vmObjOf(fn.info, sel.X) == recv {
+						if f := vmFieldOf(fn.info, sel); f != nil {
+							po := vmObjOf(fn.info, as.Rhs[0])
+							for i, p := range params {
+								if p != nil && p == po {
+									setters[obj] = setterT{f, i}
+								}
+							}
+						}
+					}
+				}
+				// stop at the first statement that mentions any field of the receiver
+				mentions := false
+				ast.Inspect(st, func(n ast.Node) bool {
+					if sel, ok := n.(*ast.SelectorExpr); ok && vmObjOf(fn.info, sel.X) == recv && vmFieldOf(fn.info, sel) != nil {
+						mentions = true
+					}
+					return !mentions
+				})
+				if mentions {
+					break
+				}
+			}
+		}
+		// setsField: the statement (of a loop body / a path) assigns field f; returns the value expression
+		setsField := func(info *types.Info, st ast.Stmt, f *types.Var) (ast.Expr, bool) {
+			switch x := st.(type) {
+			case *ast.AssignStmt:
+				for i, l := range x.Lhs {
+					if vmFieldOf(info, l) == f && i < len(x.Rhs) {
+						if _, isIdx := ast.Unparen(l).(*ast.IndexExpr); !isIdx {
+							return x.Rhs[i], true
+						}
+					}
+				}
+			case *ast.ExprStmt:
+				if call, ok := ast.Unparen(x.X).(*ast.CallExpr); ok {
+					if sd, ok := setters[CalleeOf(info, call)]; ok && sd.field == f && sd.idx < len(call.Args) {
+						return call.Args[sd.idx], true
+					}
+				}
+			}
+			return nil, false
+		}
 		// ---- carried fields: assigned in a map-range body from the key / value
 		carried := map[*types.Var]bool{}
 		mapLoopOf := func(info *types.Info, s ast.Stmt) *ast.RangeStmt {
@@ -92,6 +154,22 @@ func ruleR4LoopCarried(c *Ctx) []Obligation {
 				d := derivedOf(info, rs)
 				// direct statements of the body (every iteration)
 				for _, b := range rs.Body.List {
+					if es, isEs := b.(*ast.ExprStmt); isEs {
+						if call, ok := ast.Unparen(es.X).(*ast.CallExpr); ok {
+							if sd, ok := setters[CalleeOf(info, call)]; ok && sd.idx < len(call.Args) {
+								if sel, isSel := ast.Unparen(call.Fun).(*ast.SelectorExpr); isSel {
+									if _, isIdent := ast.Unparen(sel.X).(*ast.Ident); isIdent {
+										for o := range d {
+											if vmMentionsObj(info, call.Args[sd.idx], o) && !vmMentionsObj(info, sel.X, o) {
+												carried[sd.field] = true
+											}
+										}
+									}
+								}
+							}
+						}
+						continue
+					}
 					as, ok := b.(*ast.AssignStmt)
 					if !ok || as.Tok != token.ASSIGN {
 						continue
@@ -200,12 +278,8 @@ func ruleR4LoopCarried(c *Ctx) []Obligation {
 				ast.Inspect(fn.fd.Body, func(n ast.Node) bool {
 					if x, ok := n.(*ast.RangeStmt); ok && mapLoopOf(fn.info, x) != nil {
 						for _, b := range x.Body.List {
-							if as, ok := b.(*ast.AssignStmt); ok {
-								for _, l := range as.Lhs {
-									if vmFieldOf(fn.info, l) == f {
-										maybeStale[obj] = true
-									}
-								}
+							if _, sets := setsField(fn.info, b, f); sets {
+								maybeStale[obj] = true
 							}
 						}
 					}
@@ -254,12 +328,8 @@ func ruleR4LoopCarried(c *Ctx) []Obligation {
 						case *ast.RangeStmt:
 							if mapLoopOf(info, x) != nil {
 								for _, b := range x.Body.List {
-									if as, ok := b.(*ast.AssignStmt); ok {
-										for _, l := range as.Lhs {
-											if vmFieldOf(info, l) == f {
-												interesting = true
-											}
-										}
+									if _, sets := setsField(info, b, f); sets {
+										interesting = true
 									}
 								}
 							}
@@ -283,6 +353,9 @@ func ruleR4LoopCarried(c *Ctx) []Obligation {
 									}
 								}
 								return false
+							}
+							if sd, isSetter := setters[g]; isSetter && sd.field == f {
+								return true
 							}
 							return reads[g] || maybeStale[g]
 						case *ast.RangeStmt:
@@ -396,6 +469,22 @@ func ruleR4LoopCarried(c *Ctx) []Obligation {
 								}
 							case evCall:
 								if e.Deferred {
+									continue
+								}
+								if sd, isSetter := setters[e.Fn]; isSetter && sd.field == f && sd.idx < len(e.Call.Args) {
+									fromLoop := false
+									for _, lp := range active {
+										for o := range derivedAt[lp] {
+											if vmMentionsObj(info, e.Call.Args[sd.idx], o) {
+												fromLoop = true
+											}
+										}
+									}
+									if fromLoop {
+										st = stFresh
+									} else {
+										st = stClean
+									}
 									continue
 								}
 								if st == stStale {
